@@ -1,14 +1,14 @@
 SPECIFICATION Spec
 CONSTANTS
   G = {1, 2}
-  Rows = {"r1", "r2"}
+  Rows = {"r1"}
   Acts = {"a1"}
   MaxBranches = 2
   MaxDup = 1
   MaxForeign = 0
   AllowTimeout = TRUE
   OblTruthful = TRUE
-  OblLockCover = FALSE
+  OblLockCover = TRUE
   OblDirtyRefused = TRUE
   OblIdempotent = TRUE
   OblFence = TRUE
@@ -16,8 +16,8 @@ CONSTANTS
   OblLockQuery = TRUE
   AllowReads = FALSE
   OblHonest = TRUE
-  AllowXA = FALSE
+  AllowXA = TRUE
   OblXATruthful = TRUE
-  OblXAPhaseOrder = TRUE
-INVARIANTS TypeOK ATAtomicRollback TCCAtomic NoDirtyGlobalWrite RollbackPossible
+  OblXAPhaseOrder = FALSE
+INVARIANTS TypeOK ATAtomicRollback TCCAtomic XAAtomic NoDirtyGlobalWrite RollbackPossible
 CHECK_DEADLOCK FALSE
